@@ -60,6 +60,9 @@ Section Order.
   Hypothesis acyclic : forall t, NReach info sr again root t -> ~ TPath t t.
 
   Notation runs := (runs sr again).
+  (* TaskExecutable.parallelizable for commands and experiments; group / combine are never parallel *)
+  Definition par_of (t : nat) : bool :=
+    match t_kind (info t) with KCommand | KExperiment => t_par (info t) | _ => false end.
   Definition is_exp (d : nat) : bool := match t_kind (info d) with KExperiment => true | _ => false end.
 
   Definition DoneP (s : pstate) (v : nat) : Prop :=
@@ -82,7 +85,10 @@ Section Order.
     o_snap : forall x l, In (x, l) (snaps s) -> l = map (fun d => (d, runs d && is_exp d)) (t_deps (info x));
     o_conv : forall o, o < length (ops s) -> forall od, In od (op_exe_deps (op_at (ops s) o)) ->
              In (op_task (op_at (ops s) od)) (t_deps (info (op_task (op_at (ops s) o))));
-    o_keys : map fst (snaps s) = map op_task (ops s)
+    o_keys : map fst (snaps s) = map op_task (ops s);
+    o_attr : forall o, o < length (ops s) ->
+             op_par (op_at (ops s) o) = par_of (op_task (op_at (ops s) o)) /\
+             op_sync (op_at (ops s) o) = is_sync (t_kind (info (op_task (op_at (ops s) o))))
   }.
 
   Lemma oinit : OInv (pinit root).
@@ -94,6 +100,7 @@ Section Order.
     - intros x l [].
     - intros o Ho. simpl in Ho. lia.
     - reflexivity.
+    - intros o Ho. simpl in Ho. lia.
   Qed.
 
   (* an entry of the stack has not been completely processed *)
@@ -347,6 +354,11 @@ Section Order.
           pose proof (op_deps_lt _ _ I o' od Hlt Hod) as Hodlt. rewrite !op_at_app_l by lia.
           now apply (o_conv _ O).
       + rewrite !map_app. cbn [map fst op_task oi]. now rewrite (o_keys _ O).
+      + intros o' Ho'. rewrite app_length in Ho'. simpl in Ho'.
+        destruct (Nat.eq_dec o' o) as [->|Hne].
+        * unfold o. rewrite op_at_app_new. cbn [op_task op_par op_sync oi]. split; reflexivity.
+        * assert (Hlt : o' < length (ops s)) by (unfold o in *; lia). rewrite op_at_app_l by assumption.
+          now apply (o_attr _ O).
     - (* ---------- first visit ---------- *)
       assert (Hno_alias_i : forall j, j < length (store s) -> lt_out (lt_at (store s) j) = Alias i -> False).
       { intros j Hj Hv. destruct (o_alias _ _ I j i Hj Hv) as (Hl & _ & _).
@@ -361,7 +373,7 @@ Section Order.
         pose proof (lookup_In _ _ _ El) as Hvin. destruct (v_ok _ _ I _ _ Hvin) as [Hvlt Hvt].
         assert (Hvne : v <> i). { intros ->. destruct (Hp eq_refl) as [H _]. apply H. reflexivity. }
         assert (Hali : lt_out (lt_at (store s') i) = Alias v) by (rewrite Est, lt_at_set_eq by auto; reflexivity).
-        constructor; rewrite ?Estk, ?Eops, ?Esnaps; [exact Hdesc_pop | | exact (o_edges _ O) | exact (o_snap _ O) | exact (o_conv _ O) | exact (o_keys _ O)].
+        constructor; rewrite ?Estk, ?Eops, ?Esnaps; [exact Hdesc_pop | | exact (o_edges _ O) | exact (o_snap _ O) | exact (o_conv _ O) | exact (o_keys _ O) | exact (o_attr _ O)].
         intros p Hp' Hs j Hj. destruct (Hkeep p Hp') as [Ea Et]. rewrite Ea in Hs, Hj.
         assert (Hps : In p (stack s)) by (rewrite Es; right; assumption).
         pose proof (o_stat _ O p Hps Hs j Hj) as H. rewrite (Hbef p Hp') in H.
@@ -394,7 +406,7 @@ Section Order.
           { unfold DoneP. rewrite Est, Evis, Ecach. fold t. split.
             - cbn [lookup]. now rewrite Nat.eqb_refl.
             - left. split; [exact Hsec | apply in_or_app; right; left; reflexivity]. }
-          constructor; rewrite ?Estk, ?Eops, ?Esnaps; [exact Hdesc_pop | | exact (o_edges _ O) | exact (o_snap _ O) | exact (o_conv _ O) | exact (o_keys _ O)].
+          constructor; rewrite ?Estk, ?Eops, ?Esnaps; [exact Hdesc_pop | | exact (o_edges _ O) | exact (o_snap _ O) | exact (o_conv _ O) | exact (o_keys _ O) | exact (o_attr _ O)].
           intros p Hp' Hs j Hj. destruct (Hkeep p Hp') as [Ea Et]. rewrite Ea in Hs, Hj.
           assert (Hps : In p (stack s)) by (rewrite Es; right; assumption).
           pose proof (o_stat _ O p Hps Hs j Hj) as H. rewrite (Hbef p Hp') in H.
@@ -434,7 +446,7 @@ Section Order.
             destruct (E7 k d Ed) as (j' & Hj' & Hc). rewrite Hk in Hj'. inversion Hj'; subst j'.
             destruct Hc as [Hc|(_ & Hc & _)]; [right | left; exact Hc].
             exists d. split; [apply in_rev; eapply nth_error_In; eauto | exact Hc]. }
-          constructor; rewrite ?Estk, ?Eops, ?Esnaps; [ | | exact (o_edges _ O) | exact (o_snap _ O) | exact (o_conv _ O) | exact (o_keys _ O)].
+          constructor; rewrite ?Estk, ?Eops, ?Esnaps; [ | | exact (o_edges _ O) | exact (o_snap _ O) | exact (o_conv _ O) | exact (o_keys _ O) | exact (o_attr _ O)].
           -- intros p Hp' Hs f Hf. apply in_app_or in Hp' as [Hp'|[<-|Hp']].
              ++ rewrite <- in_rev in Hp'. destruct (Hnew_at p Hp') as [A _]. congruence.
              ++ rewrite before_app_notin, before_head, app_nil_r in Hf by exact Hi_new'.
@@ -495,16 +507,20 @@ Section Order.
     (forall o od, o < length (ops ps) -> In od (op_exe_deps (op_at (ops ps) o)) ->
        od < o /\ In (op_task (op_at (ops ps) od)) (t_deps (info (op_task (op_at (ops ps) o))))) /\
     map fst (snaps ps) = map op_task (ops ps) /\
-    (forall x l, In (x, l) (snaps ps) -> l = map (fun d => (d, runs d && is_exp d)) (t_deps (info x))).
+    (forall x l, In (x, l) (snaps ps) -> l = map (fun d => (d, runs d && is_exp d)) (t_deps (info x))) /\
+    (forall o, o < length (ops ps) ->
+       op_par (op_at (ops ps) o) = par_of (op_task (op_at (ops ps) o)) /\
+       op_sync (op_at (ops ps) o) = is_sync (t_kind (info (op_task (op_at (ops ps) o))))).
   Proof.
     unfold plan_for. intros H.
     destruct (piter_both info sr again root deps_nodup fuel (pinit root) ps (init_inv info root) (qinit info sr again root) H) as (I & Q & Hst).
     pose proof (piter_oinv fuel _ _ (init_inv info root) (qinit info sr again root) oinit H) as O.
-    split; [|split; [|split]].
+    split; [|split; [|split; [|split]]].
     - intros o Ho d Hd Hr. destruct (o_edges _ O o Ho d Hd Hr) as (od & Hod & B). exists od.
       split; [assumption|]. split; [eapply (op_deps_lt _ _ I); eauto | assumption].
     - intros o od Ho Hod. split; [eapply (op_deps_lt _ _ I); eauto | now apply (o_conv _ O)].
     - exact (o_keys _ O).
     - exact (o_snap _ O).
+    - exact (o_attr _ O).
   Qed.
 End Order.
